@@ -43,18 +43,20 @@ def key_for(label, out):
 def evaluate(ctx, cases, tag):
     """cases: [(label, asts, texts, out)] -> runs mirror + oracle in Coq, records outcomes"""
     terms = [G.c01_term(files, out) for _, files, _, out in cases]
-    bad, err = coq_eval_mismatches("cases_C01_" + tag, G.HEADER, terms, "c01_full_chk", shard_size=ctx.budget(30, 60))
+    bad, err = coq_eval_mismatches("cases_C01_" + tag, G.HEADER, terms, "c01_full_chk", shard_size=ctx.budget(max(8, len(terms) // (2 * NCPU) + 1), 60))
     if err:
         raise RuntimeError(err)
     if not bad:
         return 0
     sub = [terms[i] for i in bad]
-    m_mis, e1 = coq_eval_mismatches("cases_C01_" + tag + "_m", G.HEADER, sub, "c01_chk", shard_size=20)
-    s_mis, e2 = coq_eval_mismatches("cases_C01_" + tag + "_s", G.HEADER, sub, "c01_spec_part", shard_size=20)
-    x_mis, e3 = coq_eval_mismatches("cases_C01_" + tag + "_x", G.HEADER, sub, "c01_excused_part", shard_size=20)
-    if e1 or e2 or e3:
-        raise RuntimeError(e1 or e2 or e3)
-    m_mis, s_mis, x_mis = set(m_mis), set(s_mis), set(x_mis)
+    n = len(sub)
+    probes = ["P1Model (%s)" % t for t in sub] + ["P1Spec (%s)" % t for t in sub] + ["P1Exc (%s)" % t for t in sub]
+    pm, e1 = coq_eval_mismatches("cases_C01_" + tag + "_p", G.HEADER, probes, "c01_probe_chk", shard_size=max(4, (3 * n) // NCPU + 1))
+    if e1:
+        raise RuntimeError(e1)
+    m_mis = set(i for i in pm if i < n)
+    s_mis = set(i - n for i in pm if n <= i < 2 * n)
+    x_mis = set(i - 2 * n for i in pm if i >= 2 * n)
     nexc = 0
     for k, i in enumerate(bad):
         label, files, texts, out = cases[i]
@@ -87,7 +89,7 @@ def run(ctx):
             continue
         cc.append(("corpus:" + label, asts, fs))
     # 2. generated programs and single-rule mutants
-    progs = G.gen_cases(rng, ctx.budget(45, 1500), ctx.budget(5, 6))
+    progs = G.gen_cases(rng, ctx.budget(40, 1500), ctx.budget(5, 6), small=(ctx.tier != "thorough"))
     texts = G.render_sets(rng, progs)
     gc = [(label, files, t) for (label, files), t in zip(progs, texts)]
     allc = cc + gc
@@ -121,27 +123,15 @@ def run(ctx):
 def golden_agreement(ctx):
     res = {}
     # (a) every file of the protoc-made descriptor sets is valid per protoc: the specification must accept the sources
-    sets = []
-    for ps in G.golden_sets(REPO):
-        o = ctx.impl("miniproto", [{"mode": "protoset", "path": ps}], shards=1)[0]
-        names = [fd["name"] for fd in o.get("fds", [])]
-        srcs = {n: G.golden_source(REPO, n) for n in names}
-        if any(v is None for v in srcs.values()):
-            continue
-        sets.append((os.path.basename(ps), srcs))
-    parsed = G.parse_sets(ctx, [s for _, s in sets])
-    terms, names = [], []
-    for (nm, _), (asts, why) in zip(sets, parsed):
-        if asts is None or any(w.startswith(("syntax", "import outside", "edition", "missing", "map key")) for w in why):
-            continue
-        for f in asts:
-            G.strip_unmodelled_defaults(f, None)
-        terms.append(G.spec_term(asts, True))
-        names.append(nm)
-    bad, err = coq_eval_mismatches("cases_C01_gold", G.HEADER, terms, "spec_valid_chk", shard_size=2)
+    goldens, skipped = G.load_goldens(ctx, REPO)
+    terms = [G.spec_term(asts, True) for _, asts, _ in goldens]
+    names = [label for label, _, _ in goldens]
+    bad, err = G.cached_eval("cases_C01_gold", terms, "spec_valid_chk", 1)
     if err:
         raise RuntimeError(err)
     res["protoset_file_sets"] = len(terms)
+    res["protoset_files"] = sum(len(a) for _, a, _ in goldens)
+    res["protoset_outside_fragment"] = skipped
     res["protoset_spec_accepts"] = len(terms) - len(bad)
     res["protoset_disagree"] = [names[i] for i in bad]
     # (b) the case tables of the repository's tests: protoc's verdict confirmed by upstream CI
@@ -158,7 +148,7 @@ def golden_agreement(ctx):
             continue
         terms.append(G.spec_term(asts, c["err"] == ""))
         meta.append(c)
-    bad, err = coq_eval_mismatches("cases_C01_tab", G.HEADER, terms, "spec_valid_chk", shard_size=40)
+    bad, err = G.cached_eval("cases_C01_tab", terms, "spec_valid_chk", 30)
     if err:
         raise RuntimeError(err)
     res["table_entries"] = len(t.get("cases", []))
